@@ -1064,6 +1064,26 @@ def check_c20(tier, seed, replay):
             hdr += ['first differing operation #%d: %s' % (d, ls[d]), 'impl : ' + (io[idx][0][d] if d < len(io[idx][0]) else '<none>'),
                     'model: ' + (mo[idx][0][d] if d < len(mo[idx][0]) else '<none>')]
         violations.append((vlib.write_replay(prop, tier, seed, 'c%d' % idx, hdr, ls), False))
+    # lvalue completion / yield expressions of move-sensitive types, several calls per expectation (harness/covalue)
+    covalue = None
+    try:
+        cx = vlib.build_simple_harness('covalue', std='c++20')
+        out_cv, errs_cv = vlib.run_noinput(cx)
+        lines_cv = [l for l in out_cv if l.startswith(('PASS', 'FAIL', 'DONE'))]
+        bad_cv = [l for l in lines_cv if l.startswith('FAIL')]
+        covalue = dict(cases=len([l for l in lines_cv if l.startswith(('PASS', 'FAIL'))]), failed=len(bad_cv))
+        if bad_cv or errs_cv or not any(l.startswith('DONE') for l in lines_cv):
+            path = vlib.write_replay(prop, tier, seed, 'covalue',
+                                     ['verdict violation', 'a coroutine handled by an expectation does not produce the CO_YIELD / CO_RETURN values, '
+                                      'or the evaluation of the clauses for one call changes what another call gets',
+                                      'reproduce: g++ -std=c++20 -fsanitize=address,undefined -I/repo/include /verif/harness/covalue/h_covalue.cpp && ./a.out'],
+                                     (bad_cv or lines_cv[-5:]) + ([errs_cv[0][1][:1500]] if errs_cv else []))
+            violations.append((path, False))
+    except vlib.BuildError as e:
+        path = vlib.write_replay(prop, tier, seed, 'covalue-build',
+                                 ['verdict violation', 'a documented form of CO_RETURN / CO_YIELD with an lvalue expression no longer compiles (harness/covalue/h_covalue.cpp)'],
+                                 str(e).split('\n')[-30:])
+        violations.append((path, False))
     wall = time.time() - t0
     if any(not nf for _, nf in violations):
         for pth, nf in violations:
@@ -1082,7 +1102,7 @@ def check_c20(tier, seed, replay):
         rule='exhaustive: lazy/eager x value/void completion x every CO_YIELD list of length <= 3 (quick) / 4 over {value, value, throwing} '
              'with at most one throwing clause x {CO_RETURN value, throwing CO_RETURN, CO_THROW} x pulls past the end; two coroutines of '
              'one expectation under sampled and fixed interleavings; coroutines of two expectations; mock functions WITHOUT parameters (F12)',
-        samples=['\n'.join(scripts[k]) for k in (0, len(scripts) // 2)], exhaustive=False, outcome_histogram=dict(hist), notes=notes,
+        samples=['\n'.join(scripts[k]) for k in (0, len(scripts) // 2)], exhaustive=False, outcome_histogram=dict(hist), notes=notes, completion_value_family=covalue,
         harness_tree=vlib.repo_hash())
     vlib.write_evidence(prop, tier, seed, 'proof', cov,
                         ['the expectation outlives the evaluation of its clauses (the property\'s proviso)',
